@@ -1,6 +1,7 @@
 """C13 -- generated HTML, WML and Gopher+ blocks cannot be subverted by data."""
 from __future__ import annotations
 
+import os
 import re
 import typing
 import urllib.parse
@@ -298,14 +299,27 @@ def gopherplus_blocks(chk: Check, sc: Scratch) -> None:
             for e in exts:
                 lines = [rng.choice(hostile_lines) for _ in range(rng.randrange(1, 6))]
                 t.file("d/" + n + e, rng.choice(["\n", "\r\n"]).join(lines) + rng.choice(["", "\n"]))
+        # HTML titles that spell line breaks and block headers as character references
+        titles = ["Hello&#13;&#10;+ADMIN:&#13;&#10; Admin: Mallory &lt;m@evil&gt;", "A&NewLine;+INFO: 1x&Tab;/y&Tab;h.example&Tab;70",
+                  "B&#10;+VIEWS:&#10; text/evil: &lt;9k&gt;", "C&#x0d;&#x0a;+FAKE: x", "plain title"]
+        tfile = "t%d.html" % i
+        t.file("d/" + tfile, "<html><head><title>%s</title></head><body>x</body></html>" % titles[i % len(titles)])
+        names.append(tfile)
+        sidecars[tfile] = []
         t.materialize(root)
         # entry abstracts would legitimately add informational items; keep them out of this listing
-        site = driver.Site(root, overrides={("pygopherd", "abstract_entries"): "never", ("pygopherd", "abstract_headers"): "off"})
+        site = driver.Site(root, overrides={("pygopherd", "abstract_entries"): "never", ("pygopherd", "abstract_headers"): "off",
+                                            ("handlers.UMN.UMNDirHandler", "extstrip"): "none"})
         try:
             _, plain = fetch(site, "gopher", b"/d")
-            plain_lines = parsers.parse_gopher_menu(plain.data)
+            try:
+                plain_lines = parsers.parse_gopher_menu(plain.data)
+            except parsers.Malformed as e:
+                chk.witness("C13/gopher-menu-line-broken-by-content", {"reply": plain.data[:400], "error": str(e)})
+                return
             listed = [d["selector"].rsplit(b"/", 1)[-1].decode() for d in plain_lines]
-            for view, sel, nitems in (("gopherp$", b"/d", len(listed)), ("gopherp!", b"/d/a.txt", 1), ("gopherps$", b"/d", len(listed))):
+            for view, sel, nitems in (("gopherp$", b"/d", len(listed)), ("gopherp!", b"/d/a.txt", 1), ("gopherps$", b"/d", len(listed)),
+                                      ("gopherp!", b"/d/" + tfile.encode(), 1)):
                 req, r = fetch(site, view, sel)
                 chk.count("gopherplus_listings_checked")
                 v = validate.validate(r, req)
@@ -318,7 +332,7 @@ def gopherplus_blocks(chk: Check, sc: Scratch) -> None:
                     chk.witness("C13/gopherplus-content-became-item", dict(sample, items=len(items), expected=nitems))
                     return
                 order = {"ABSTRACT": 0, "KEYWORDS": 1, "ASK": 2, "3D": 3}
-                for item, n in zip(items, listed if nitems != 1 else ["a.txt"]):
+                for item, n in zip(items, listed if nitems != 1 else [sel.rsplit(b"/", 1)[-1].decode()]):
                     blocks = [b[0] for b in item]
                     want_extra = sorted((e[1:].upper() for e in sidecars.get(n, [])), key=lambda x: order[x])
                     if blocks[:3] != ["INFO", "ADMIN", "VIEWS"] or sorted(blocks[3:], key=lambda x: order.get(x, 9)) != want_extra \
